@@ -92,12 +92,14 @@ def brute(edges, fr, am, energy):
     return H, H1
 
 
-def oracle(edges, fr, am):
+def oracle(edges, fr, am, layout='C'):
     from emd import spectra
     fails = []
     e = np.array(edges, dtype=float)
     f = np.array(fr, dtype=float)
     a = np.array(am, dtype=float)
+    if layout == 'F':          # the same values, Fortran-ordered in memory (what a transposed [M x T] stack looks like)
+        f, a = np.asfortranarray(f), np.asfortranarray(a)
     f0, a0 = f.copy(), a.copy()
     for mode in ('energy', 'amplitude'):
         H, H1 = brute(edges, fr, am, mode == 'energy')
@@ -153,10 +155,13 @@ def run(ctx):
         ctx.exact_cmp += 1
         if idx % 997 == 0:
             ctx.sample(dict(freq_edges=edges, infr=fr, inam=am))
-        fails = oracle(edges, fr, am)
+        layout = 'CF'[idx % 2]
+        ctx.hist['layout-' + layout] += 1
+        fails = oracle(edges, fr, am, layout)
         for site, detail in fails[:1]:
             flat = [x for r in fr for x in r]
-            ctx.problem('impl-violation', site, detail, input=dict(freq_edges=edges, infr=fr, inam=am),
+            ctx.problem('impl-violation', site, ('' if layout == 'C' else '(Fortran-ordered arrays) ') + detail,
+                        input=dict(freq_edges=edges, infr=fr, inam=am, layout=layout),
                         tags=dict(below_range=any(x < edges[0] for x in flat)))
         if common.hashL(out) != mh[idx] and bad is None and not fails:
             bad = idx
@@ -170,7 +175,7 @@ def run(ctx):
 
 def replay(rec):
     i = rec['input']
-    fails = oracle(i['freq_edges'], i['infr'], i['inam'])
+    fails = oracle(i['freq_edges'], i['infr'], i['inam'], i.get('layout', 'C'))
     for f in fails:
         print(f)
     return bool(fails)
